@@ -9,6 +9,8 @@ use heck::{ToLowerCamelCase, ToSnakeCase};
 use serde_json::{json, Value};
 use std::fs;
 use std::panic::{catch_unwind, AssertUnwindSafe};
+use tauri_typegen::analysis::CommandAnalyzer;
+use tauri_typegen::generators::create_generator;
 use tauri_typegen::{generate_from_config, GenerateConfig};
 
 fn panic_msg(e: Box<dyn std::any::Any + Send>) -> String {
@@ -90,7 +92,9 @@ fn gen(case: &Value) -> Value {
     let mut abs = Vec::new();
     for p in case["params"].as_array().unwrap() {
         let n = p["name"].as_str().unwrap();
-        heck.push(json!([n.to_lower_camel_case(), n.to_snake_case()]));
+        // for a destructuring pattern tauri-macros starts from the identifier of the pattern's path
+        let h = p["heck_src"].as_str().unwrap_or(n);
+        heck.push(json!([h.to_lower_camel_case(), h.to_snake_case()]));
         abs.push(abs_type(p["ty"].as_str().unwrap()));
     }
     json!({"id": case["id"], "plain": plain, "zod": zod, "heck": heck, "abs": abs})
@@ -127,6 +131,53 @@ fn route(case: &Value) -> Value {
     }
 }
 
+/// Subcommand `reuse`: the library API used as long-lived objects (a watch mode): ONE generator from
+/// create_generator (and, when "reuse_analyzer", ONE CommandAnalyzer) serves every round; each round rewrites
+/// the sources, analyses them and calls generate_models into the same output directory.
+/// case: {"id", "scratch", "mode": "none"|"zod", "reuse_analyzer": bool, "rounds": [{"files": [[path, text]], "default_case": str|null}]}
+fn reuse(case: &Value) -> Value {
+    let scratch = case["scratch"].as_str().unwrap();
+    fs::create_dir_all(scratch).unwrap();
+    let dir = tempfile::Builder::new().prefix("c04r-").tempdir_in(scratch).unwrap();
+    let mode = case["mode"].as_str().unwrap().to_string();
+    let src = dir.path().join("src");
+    let out = dir.path().join("out");
+    let mut generator = create_generator(Some(mode.clone()));
+    let mut shared = CommandAnalyzer::new();
+    let mut rounds = Vec::new();
+    for (i, round) in case["rounds"].as_array().unwrap().iter().enumerate() {
+        let _ = fs::remove_dir_all(&src);
+        for f in round["files"].as_array().unwrap() {
+            let p = src.join(f[0].as_str().unwrap());
+            fs::create_dir_all(p.parent().unwrap()).unwrap();
+            fs::write(p, f[1].as_str().unwrap()).unwrap();
+        }
+        let mut cfg = json!({"project_path": src.to_string_lossy(), "output_path": out.to_string_lossy(), "validation_library": mode});
+        if let Some(s) = round["default_case"].as_str() {
+            cfg["default_parameter_case"] = json!(s);
+        }
+        let cfg_path = dir.path().join(format!("typegen-{i}.json"));
+        fs::write(&cfg_path, serde_json::to_string(&cfg).unwrap()).unwrap();
+        let reuse_analyzer = case["reuse_analyzer"].as_bool().unwrap_or(false);
+        let r = catch_unwind(AssertUnwindSafe(|| -> Result<(), String> {
+            let config = GenerateConfig::from_file(&cfg_path).map_err(|e| format!("config: {e}"))?;
+            let mut fresh = CommandAnalyzer::new();
+            let analyzer: &mut CommandAnalyzer = if reuse_analyzer { &mut shared } else { &mut fresh };
+            let commands = analyzer.analyze_project(&config.project_path).map_err(|e| e.to_string())?;
+            generator
+                .generate_models(&commands, analyzer.get_discovered_structs(), &config.output_path, analyzer, &config)
+                .map(|_| ())
+                .map_err(|e| e.to_string())
+        }));
+        rounds.push(match r {
+            Err(e) => json!({"panic": panic_msg(e)}),
+            Ok(Err(e)) => json!({"error": e}),
+            Ok(Ok(())) => json!({"types": fs::read_to_string(out.join("types.ts")).ok(), "commands": fs::read_to_string(out.join("commands.ts")).ok()}),
+        });
+    }
+    json!({"id": case["id"], "rounds": rounds})
+}
+
 fn main() {
-    tt_harness::dispatch(&[("gen", gen), ("route", route)]);
+    tt_harness::dispatch(&[("gen", gen), ("route", route), ("reuse", reuse)]);
 }
